@@ -213,7 +213,7 @@ fn case(rng: &mut Rng, pools: &mut Pools, rep: &mut Report, case_no: u64) {
 pub fn run(args: &Args) -> i32 {
     let mut rep = Report::new(args);
     let mut pools = Pools::new();
-    let n = args.count(4000, 80_000);
+    let n = args.count(16_000, 240_000);
     let range: Vec<u64> = match args.case {
         Some(c) => vec![c],
         None => (0..n).collect(),
